@@ -849,7 +849,6 @@ pub fn pk_span<P: PackedCase, const N: usize>() {
 /// allocation (C15), the result against the definition (C06).
 #[cfg(kani)]
 pub fn pk_teddy<P: PackedCase, const LEN: usize, const OFF: usize, const W: usize, const PAD: u8>() {
-    let srch = P::searcher();
     let mut hay = [PAD; LEN];
     let w: [u8; W] = any();
     let mut i = 0;
@@ -861,7 +860,7 @@ pub fn pk_teddy<P: PackedCase, const LEN: usize, const OFF: usize, const W: usiz
     // explores the Rabin-Karp fallback for spans below the minimum length on every path,
     // which alone exhausted 20 GB. The fallback has its own (Rabin-Karp) harnesses.
     let s: usize = 0;
-    let got = srch.find_in(&hay[..], Span { start: s, end: LEN });
+    let got = P::find_in(&hay[..], Span { start: s, end: LEN });
     let want = oracle::leftmost(P::pats(), &hay[..], s, LEN, P::KIND, false, false);
     assert!(same(got, want), "Teddy search differs from the leftmost definition");
     if let Some(m) = got {
@@ -869,7 +868,6 @@ pub fn pk_teddy<P: PackedCase, const LEN: usize, const OFF: usize, const W: usiz
     }
     cover!(got.is_some() && got.unwrap().start() >= OFF, "a match inside the window");
     cover!(got.is_none() || got.unwrap().start() < OFF, "no match inside the window");
-    core::mem::forget(srch);
 }
 
 /// C06/C15: the candidate-verification primitives of every packed variant
